@@ -320,7 +320,7 @@ func (r *breader) readString() (s string) {
 		return
 	}
 	b := make([]byte, sl)
-	_, r.err = r.r.Read(b)
+	_, r.err = io.ReadFull(r.r, b)
 	if r.err == nil {
 		s = string(b)
 	}
